@@ -512,6 +512,7 @@ type Round struct {
 	RootArgs  []string
 	Selectors []string
 	RefHash   string // options hash the command's flags produce
+	NNew      int    // shards beyond the first that a build with these flags writes (templates have 3 files)
 
 	Desired     []Discovered // discovery oracle on RootsAbs (sync)
 	DiscoverErr string
@@ -551,6 +552,11 @@ func (w *World) RunRound(r *gen.Rand, t *Tool, kind string, withPreview bool) *R
 			o.SetDefaults()
 			rd.RefHash = o.GetHash()
 		}
+		if r.Chance(1, 5) {
+			// one shard per file: multi-shard repositories (ShardMax is not part of the options hash)
+			rd.Flags = append(rd.Flags, "-shard_limit", "1")
+			rd.NNew = TemplateFiles - 1
+		}
 		rd.RootsAbs, rd.RootArgs = w.PickRoots(r)
 		rd.Desired, rd.DiscoverErr = Discover(rd.RootsAbs)
 	} else {
@@ -587,7 +593,7 @@ func (rd *Round) instAt(source string) *Inst { return rd.World.Insts[source] }
 func (rd *Round) ModelRepos() []ModelRepo {
 	var rs []ModelRepo
 	for _, d := range rd.Desired {
-		m := ModelRepo{Name: d.Name, Source: d.Source, Shard0: ShardPath(rd.World.Index, d.Name, 0)}
+		m := ModelRepo{Name: d.Name, Source: d.Source, Shard0: ShardPath(rd.World.Index, d.Name, 0), NNew: rd.NNew}
 		for n := 1; n <= 3; n++ {
 			m.More = append(m.More, ShardPath(rd.World.Index, d.Name, n))
 		}
